@@ -36,3 +36,91 @@ pub fn valid_cell(d: u8, h: u64) -> bool { d <= 29 && h < n_hash(d) }
 /// uniq numbers, from the property statement: sentinel form = 4^(d+2) + h ; IVOA form = 4*4^d + h.
 pub fn uniq(d: u8, h: u64) -> u64 { pow4(d.wrapping_add(2)).wrapping_add(h) }
 pub fn uniq_ivoa(d: u8, h: u64) -> u64 { pow4(d).wrapping_mul(4).wrapping_add(h) }
+
+// =================================================================================================
+// Integer geometry of the HEALPix projection plane (DESIGN.md §4), independent of every table of
+// the crate. Unit of length: 1/nside. A cell is (base cell b, i, j) with 0 <= i,j < n.
+// =================================================================================================
+
+/// Centre of base cell `b` in the 8x3 grid: NPC (b<4): (2b+1, 1); EQR: (2(b-4), 0); SPC: (2(b-8)+1, -1).
+pub fn base_cell_center(b: u8) -> (i64, i64) {
+  let row = (b / 4) as i64;          // 0 north, 1 equatorial, 2 south
+  let col = (b % 4) as i64;
+  let offy = 1 - row;
+  let offx = 2 * col + if row != 1 { 1 } else { 0 };
+  (offx, offy)
+}
+
+/// Centre of cell (b,i,j) at nside n, in units of 1/n (x may be negative for base cell 4).
+pub fn cell_center(n: i64, b: u8, i: i64, j: i64) -> (i64, i64) {
+  let (ox, oy) = base_cell_center(b);
+  (ox * n + (i - j), oy * n + (i + j - (n - 1)))
+}
+
+/// Vertex k of a cell of centre (xc,yc): 0 = S, 1 = E, 2 = N, 3 = W (the crate's Cardinal order).
+pub fn vertex(xc: i64, yc: i64, k: u8) -> (i64, i64) {
+  match k { 0 => (xc, yc - 1), 1 => (xc + 1, yc), 2 => (xc, yc + 1), _ => (xc - 1, yc) }
+}
+
+/// Canonical identity of the point (x,y) (a vertex of a cell of base cell `b`) after gluing the
+/// HEALPix net: equatorial band |y| <= n: (0, y, x mod 8n); north cap, t = 2n - y > 0:
+/// (1, t, ring position p mod 8t) with p = 2t*q + (x - (2q+1)n) + t inside gore q = b; the pole
+/// (t = 0) is a single point; south cap symmetric with q = b - 8.
+pub fn canon(n: i64, b: u8, x: i64, y: i64) -> (u8, i64, i64) {
+  // no symbolic multiplication: q in 0..=3 is expanded by cases (keeps the SAT encoding small)
+  let q = b & 3;
+  let apex_x = match q { 0 => n, 1 => 3 * n, 2 => 5 * n, _ => 7 * n }; // (2q+1) n
+  if y > n || y < -n {
+    let (reg, t) = if y > n { (1u8, 2 * n - y) } else { (2u8, 2 * n + y) };
+    if t <= 0 { return (reg, 0, 0); }
+    let t2 = t + t;
+    let base = match q { 0 => 0, 1 => t2, 2 => t2 + t2, _ => t2 + t2 + t2 }; // 2 t q
+    let t8 = t2 + t2 + t2 + t2;
+    let mut p = base + (x - apex_x) + t;
+    if p >= t8 { p -= t8; }
+    if p < 0 { p += t8; }
+    (reg, t, p)
+  } else {
+    let mut xm = x;
+    if xm < 0 { xm += 8 * n; }
+    if xm >= 8 * n { xm -= 8 * n; }
+    (0, y, xm)
+  }
+}
+
+/// The four canonical vertices of cell (b,i,j), in the order S, E, N, W.
+pub fn cell_vertices(n: i64, b: u8, i: i64, j: i64) -> [(u8, i64, i64); 4] {
+  let (xc, yc) = cell_center(n, b, i, j);
+  let s = vertex(xc, yc, 0); let e = vertex(xc, yc, 1); let nn = vertex(xc, yc, 2); let w = vertex(xc, yc, 3);
+  [canon(n, b, s.0, s.1), canon(n, b, e.0, e.1), canon(n, b, nn.0, nn.1), canon(n, b, w.0, w.1)]
+}
+
+/// Bit mask m (bit k set iff vertex k of `a` is also a vertex of `c`).
+pub fn shared_mask(a: &[(u8, i64, i64); 4], c: &[(u8, i64, i64); 4]) -> u8 {
+  let mut m = 0u8;
+  let mut k = 0;
+  while k < 4 {
+    if a[k] == c[0] || a[k] == c[1] || a[k] == c[2] || a[k] == c[3] { m |= 1 << k; }
+    k += 1;
+  }
+  m
+}
+
+/// One of the 8 points of the sphere where only three cells meet: (x = 0 mod 2n, y = +-n).
+pub fn is_three_cell_point(n: i64, v: (u8, i64, i64)) -> bool {
+  v.0 == 0 && (v.1 == n || v.1 == -n) && (v.2 == 0 || v.2 == 2 * n || v.2 == 4 * n || v.2 == 6 * n)
+}
+
+/// Decode a nested hash by the DEFINITION (base cell = h / 4^d, i = even bits, j = odd bits).
+pub fn decode(d: u8, h: u64) -> (u8, i64, i64) {
+  let low = if d == 0 { 0 } else { h & ((1u64 << (2 * d as u32)) - 1) };
+  let b = (h >> (2 * d as u32)) as u8;
+  (b, even_bits(low) as i64, odd_bits(low) as i64)
+}
+pub fn encode(d: u8, b: u8, i: u32, j: u32) -> u64 { ((b as u64) << (2 * d as u32)) | interleave(i, j) }
+
+/// Mask of the vertices (S=1,E=2,N=4,W=8) of H that the cell stored under MainWind index `dir`
+/// (S=0,SE=1,E=2,SW=3,C=4,NE=5,W=6,NW=7,N=8) must share with H, by the property statement.
+pub fn expected_shared(dir: u8) -> u8 {
+  match dir { 0 => 1, 1 => 1 | 2, 2 => 2, 3 => 1 | 8, 4 => 15, 5 => 4 | 2, 6 => 8, 7 => 4 | 8, _ => 4 }
+}
